@@ -1277,3 +1277,47 @@ func IsParamLike(v ssa.Value, name string) bool {
 	}
 	return false
 }
+
+// ByteBufLens returns the constant lengths of the byte buffers created in fn
+// (make([]byte, K) with constant K, which go/ssa lowers to new [K]byte + slice,
+// or MakeSlice with a constant length).
+func ByteBufLens(fn *ssa.Function) []int64 {
+	var out []int64
+	for _, b := range fn.Blocks {
+		for _, in := range b.Instrs {
+			switch x := in.(type) {
+			case *ssa.MakeSlice:
+				if k, ok := ConstInt(x.Len); ok {
+					out = append(out, k)
+				}
+			case *ssa.Alloc:
+				if arr, ok := deref(x.Type()).Underlying().(*types.Array); ok {
+					if bt, ok := arr.Elem().Underlying().(*types.Basic); ok && bt.Kind() == types.Uint8 {
+						out = append(out, arr.Len())
+					}
+				}
+			}
+		}
+	}
+	return out
+}
+
+// BufLenOf returns the constant length of the byte buffer v was sliced from, or -1.
+func BufLenOf(v ssa.Value) int64 {
+	r := int64(-1)
+	Walk(v, 4, func(x ssa.Value) bool {
+		switch y := x.(type) {
+		case *ssa.MakeSlice:
+			if k, ok := ConstInt(y.Len); ok {
+				r = k
+			}
+		case *ssa.Alloc:
+			if arr, ok := deref(y.Type()).Underlying().(*types.Array); ok {
+				r = arr.Len()
+			}
+			return false
+		}
+		return true
+	})
+	return r
+}
